@@ -292,11 +292,14 @@ class Building(object):
         assert data['type'] == 'Building', 'Expected ' \
             'Building dictionary. Got {}.'.format(data['type'])
 
-        return cls(data['floor_height'], data['int_heat_night'], data['int_heat_day'],
-                   data['int_heat_frad'], data['int_heat_flat'], data['infil'],
-                   data['vent'], data['glazing_ratio'], data['u_value'], data['shgc'],
-                   data['condtype'], data['cop'], data['coolcap'], data['heateff'],
-                   data['initial_temp'])
+        bld = cls(data['floor_height'], data['int_heat_night'], data['int_heat_day'],
+                  data['int_heat_frad'], data['int_heat_flat'], data['infil'],
+                  data['vent'], data['glazing_ratio'], data['u_value'], data['shgc'],
+                  data['condtype'], data['cop'], data['coolcap'], data['heateff'],
+                  data['initial_temp'])
+        if 'heat_cap' in data and data['heat_cap'] is not None:
+            bld.heat_cap = data['heat_cap']
+        return bld
 
     def to_dict(self):
         """Building dictionary representation."""
@@ -316,6 +319,7 @@ class Building(object):
         base['coolcap'] = self.coolcap
         base['heateff'] = self.heateff
         base['initial_temp'] = self.initial_temp
+        base['heat_cap'] = self.heat_cap
         return base
 
     def BEMCalc(self, UCM, BEM, forc, parameter, simTime):
